@@ -9,6 +9,8 @@ BOUNDS = {"stored_data": "any length (symbolic); streamed verification loops bou
                     "another entry's bytes, empty file), truncated at any length, removed, or replaced by a symlink to a file holding F",
           "reads": "<= 3 user reads with symbolic buffer sizes before check() (quick: 2 reads, verification loops bounded to 2 data reads)",
           "integrity": "single hash of each of the five algorithms", "destination": "absent, or (copies) an existing file of arbitrary content and length",
+          "repeats": "the same process retrieving the entry once before the damage and again after it (damage in place keeps length-compatible "
+                     "cases and the file's modification time)",
           "outside": "more than 3 reads per file; hash collisions (ideal-hash assumption)"}
 
 DAMAGE = ["none", "replace", "truncate", "remove", "symlink"]
@@ -47,7 +49,19 @@ def checked(ctx, algo, damage, retrieval, api, nreads=3, dest_exists=False, twic
     if r.kind != "ok":
         return       # C02's business
     sri = r.value
-    if twice:
+    if twice and retrieval in ("read", "read_hash"):
+        # the same process has already retrieved (and verified) this entry once before the damage happens
+        first = scn.read_hash(sri) if retrieval == "read_hash" else scn.read("k")
+        if first.kind != "ok":
+            return
+    elif twice and retrieval in ("stream", "stream_hash"):
+        r0 = scn.ropen_hash(sri) if retrieval == "stream_hash" else scn.ropen("k")
+        if r0.kind != "ok":
+            return
+        scn.hread(r0.handle, 1 << 20)
+        if scn.check(r0.handle).kind != "ok":
+            return
+    elif twice:
         # the destination was produced by an earlier, successful extraction of the same entry (for hard links it
         # IS the content file); the stored copy is damaged afterwards, then the extraction is repeated
         first = scn.extract(retrieval, ROOT + "/out", sri=sri) if retrieval.endswith("_hash") else scn.extract(retrieval, ROOT + "/out", key="k")
@@ -143,10 +157,10 @@ def tasks(tier, flavours):
         for retrieval in ("copy", "copy_hash"):
             out.append(dict(module="C01", family="checked", flavour=fl,
                             params=dict(algo=None, damage="none", retrieval=retrieval, api=api, nreads=2 if tier == "quick" else 3, dest_exists=True)))
-        for retrieval in ("hard_link", "hard_link_hash", "copy", "reflink"):
+        for retrieval in ("hard_link", "hard_link_hash", "copy", "reflink", "read", "read_hash", "stream"):
             if api == "async" and retrieval == "hard_link_hash":
                 continue
-            if tier == "quick" and fl != "sync" and retrieval != "hard_link":
+            if tier == "quick" and fl != "sync" and retrieval not in ("hard_link", "read", "read_hash"):
                 continue
             for damage in ("replace", "truncate"):
                 out.append(dict(module="C01", family="checked", flavour=fl,
